@@ -69,9 +69,12 @@ def run_one(spec, tier="quick", verbose=False):
         if spec.get("benign"):
             # a behaviour-preserving change: every claimed property must stay silent (known findings excepted)
             keys = []
+            import gc
             for pid in claimed():
                 new, known, obs = engine.run_property(pid, tier, quiet=True, repo=d, write_evidence=False)
                 keys += ["%s %s %s" % (pid, o.rule, o.key) for o in new]
+                del new, known, obs
+                gc.collect()
             return (not keys, "behaviour-preserving change: %d false alarm(s)" % len(keys), keys)
         new, known, obs = engine.run_property(spec["property"], tier, quiet=True, repo=d, write_evidence=False)
         keys = ["%s %s" % (o.rule, o.key) for o in new]
@@ -82,6 +85,8 @@ def run_one(spec, tier="quick", verbose=False):
         return ok, ("reported %d violation(s)" % len(new)), keys
     finally:
         shutil.rmtree(d, ignore_errors=True)
+        import gc
+        gc.collect()   # Facts <-> Body reference cycles over ~20 MB of JSON each: do not wait for a full collection
 
 
 def _init_worker(counter):
